@@ -456,3 +456,53 @@ class BoundaryCell(M.MainstreamOrigin):
         nxt = super().step_dynamics(net, *args, **kwargs)
         nxt["v_in"] = 0.5 * (self.states["v_in"] + 80.0)
         return nxt
+
+
+class _IndexHashed:
+    """Mixin: hashed by a per-family index (so that sets iterate in a reproducible order), equality stays identity."""
+
+    def __hash__(self):
+        return hash(getattr(self, "idx", 0))
+
+
+class IdxLink(_IndexHashed, M.Link):
+    _vf_user = True
+
+
+class IdxOrigin(_IndexHashed, M.MainstreamOrigin):
+    _vf_user = True
+
+
+class IdxDestination(_IndexHashed, M.Destination):
+    _vf_user = True
+
+
+class IdxNode(_IndexHashed, M.Node):
+    _vf_user = True
+
+
+class OptionalDemandOrigin(M.Origin):
+    """A state-less origin whose variable groups are declared PER INSTANCE (`self._disturbances = {"d"}` in the constructor when
+    the optional demand cap is asked for; the class-level sets stay empty)."""
+
+    _vf_user = True
+
+    def __init__(self, name=None, capped=True):
+        super().__init__(name)
+        if capped:
+            self._disturbances = {"d"}
+
+    def init_vars(self, init_conditions=None, engine=None, **_):
+        if engine is None:
+            engine = get_current_engine()
+        if self._disturbances:
+            ic = init_conditions or {}
+            self.disturbances = {"d": ic["d"] if "d" in ic else engine.var(f"d_{self.name}")}
+
+    def get_flow(self, net, engine=None, **kwargs):
+        q = super().get_flow(net, engine=engine, **kwargs)
+        if not self._disturbances:
+            return q
+        if engine is None:
+            engine = get_current_engine()
+        return -engine.max(-q, -self.disturbances["d"])  # min(q, d)
